@@ -119,6 +119,19 @@ def fingerprint(obj, out: Optional[Dict[str, Entry]] = None, path: str = "", see
         a = getattr(obj, "_axes", None)
         if a is not None:
             out[path + "<axes>"] = ((str(a),), None, None)
+        if not path and g is not None and not isinstance(g, (tuple, list)) and hasattr(obj, "batch"):
+            # what a pool image answers through batch(): the batch of one lives on the image's own Grid object (an entry
+            # that afterwards lives in another Grid was re-bound on some object the image handed out earlier)
+            try:
+                bg = obj.batch()._grid
+                res_ = set()
+                for x_ in bg:
+                    res_.add(("G", id(x_)))
+                    for slot in ("_size", "_center", "_spacing", "_direction"):
+                        res_ |= set(tensor_entry(getattr(x_, slot))[2] or ())
+                out["<answers>batch().grids"] = (("grids", len(bg)), hashlib.blake2b(repr(tuple(grid_meta(x_) for x_ in bg)).encode(), digest_size=8).hexdigest(), frozenset(res_))
+            except Exception as e:  # noqa: BLE001
+                out["<answers>batch()"] = (("raises", type(e).__name__), None, None)
         return out
     if isinstance(obj, Grid):
         # the *value* of a Grid object is what an in-place setter changes; objects holding the same Grid alias it
@@ -198,7 +211,12 @@ def diff(before: Dict[str, Entry], after: Dict[str, Entry], free_resources: Opti
             # (re-bound, removed) was changed on that object itself, which sharing does not explain
             if a is None:
                 return {"path": k, "what": "disappeared"}
-            if not ((b[2] & free_resources) & (a[2] or set())):
+            sh_ = b[2] & free_resources
+            obj_sh = {r_ for r_ in sh_ if r_[0] in ("G", "K")}
+            if obj_sh:
+                sh_ = obj_sh  # an entry that lived in a shared Grid/Cube *object* must still live in that object (a derived
+                # Grid may share slot tensors with the one it was derived from without being it)
+            if not (sh_ & (a[2] or set())):
                 # (a slot tensor of a shared Grid object may be replaced by an in-place setter of that Grid: the entry
                 # then still lives in the shared Grid object, which is enough)
                 return {"path": k, "what": "rebound"}
